@@ -763,10 +763,11 @@ class Solver(object):
             # anymore.
             return self.dt
 
-        if self._prev_dt is not None and \
-           abs(self._prev_dt - self.dt) > self._epsilon:
+        if self._prev_dt is not None:
             # if the _prev_dt was set then we need to use it as the current dt
-            # was set to print at an intermediate time.
+            # was set to print at an intermediate time.  (Restored and cleared
+            # whatever the difference: a value left pending is restored steps
+            # later, over a dt that has changed in between.)
             self.dt = self._prev_dt
             self._prev_dt = None
 
